@@ -18,6 +18,7 @@ import (
 	"verif/harness/proj"
 	"verif/harness/ref4"
 	"verif/harness/ref6"
+	"verif/harness/reflabel"
 	"verif/harness/tree"
 	"verif/harness/v6util"
 )
@@ -217,6 +218,16 @@ func be32(v uint32) []byte { return []byte{byte(v >> 24), byte(v >> 16), byte(v 
 // nonCanon6 builds accepted-but-non-canonical DHCPv6 encodings by hand.
 func nonCanon6(r *rand.Rand) []byte { return gen6.NonCanonical(r) }
 
+// v4With119: a minimal DHCPv4 packet whose domain search option (119) is w
+func v4With119(w []byte) []byte {
+	b := make([]byte, 240)
+	b[0], b[1], b[2] = 1, 1, 6
+	copy(b[236:], []byte{99, 130, 83, 99})
+	b = append(b, 53, 1, 1, 119, byte(len(w)))
+	b = append(b, w...)
+	return append(b, 255)
+}
+
 func TestCheck(t *testing.T) {
 	r := mon.New("C06")
 	defer r.Flush()
@@ -282,6 +293,17 @@ func TestCheck(t *testing.T) {
 		}
 		rng := r.Rand("v6nc", i)
 		judge6(r, "noncanon", nonCanon6(rng))
+	}
+	// name lists of equal length and equal checksum, one after the other (a table of encodings seen before that is
+	// keyed by a checksum gives the second the names of the first)
+	if r.Shard == 0 {
+		for _, pr := range reflabel.Colliding() {
+			for _, w := range [][]byte{pr.A, pr.B, pr.A} {
+				judge6(r, "name-collision", append([]byte{3, 9, 8, 7, 0, 24, byte(len(w) >> 8), byte(len(w))}, w...))
+				judge6(r, "name-collision", append([]byte{7, 9, 8, 7, 0, 39, 0, byte(len(w) + 1), 1}, w...))
+				judge4(r, "name-collision", v4With119(w))
+			}
+		}
 	}
 	// typed option codes without a generator: arbitrary payloads, the accepted ones must be fixpoints
 	k0 := 0
